@@ -31,6 +31,9 @@ checks = {
  "C09": ("E1", E1,
    "All schedules (pre-emption bound 1 for single-submitter scripts, delay bound 2/3 for two submitters; early timer firing as a deviation; happens-before state cache) of a DefaultWorkerPool over a BufferedChannelQueue for 3-6 configurations (queue 1-2+0-2, max 1-2, stand-by 0-2, batch 0-1) x 8-10 submission scripts mixing plain, slow and panicking jobs through Schedule / ScheduleWithTimeout / Invoke, optionally closing the pool at the end: per job run count <= 1 and == 1 at final quiescence when accepted and the pool is open, rejected jobs never run, running gauge <= workerSizeMaximum, panic handler exactly once per panicking job and for nothing else, documented error codes.",
    "Bounded jobs/submitters/deviations; idle timers 1 h (longer than the run); virtual time with a 300 ms horizon; SC interleavings; vsched runtime model.", "DESIGN.md §2, §5 C09"),
+ "C07": ("E1", E1,
+   "All schedules (pre-emption bound 1-2, delay bound 2-3 for the two-producer/two-consumer scenarios; early timer firing as a deviation; happens-before state cache) of producers (Offer/Put of tagged values), consumers (Poll / TakeWithTimeout / receive on GetChannel) and the queue's own loader and free-node goroutines over every (channelCapacity, bufferSizeMaximum) in {0,1,2}^2, followed by a drain (repeated Poll with pauses, or one blocking Take per outstanding item); plus the ChannelQueue wrappers on capacities 0-2. Invariant at every scheduling step with the queue lock free: channel length + overflow <= capacity + maximum. At the end: delivered multiset = accepted multiset (capacity >= 1), per-producer order per consumer, no invented/duplicated value, ErrQueueIsFull / ErrQueueIsEmpty only when the overflow was at its maximum / the channel was empty at some step of the call, Offer/Poll never blocked, Count() = 0.",
+   "Bounded producers/consumers/values/deviations; virtual time with a 400 ms horizon; SC interleavings; vsched runtime model; private queue state read by reflection for the capacity clause.", "DESIGN.md §2, §5 C07"),
 }
 
 not_yet = "check not built yet in this round (see DESIGN.md §9 build order); no claim made"
